@@ -22,6 +22,67 @@ def unique_id() -> str:
             return uid
 
 
+def mangle_private_names(root: AST) -> None:
+    """
+    Private names (`__name`) in a class are mangled as `_ClassName__name`
+    by the compiler (and so are the names in the symbol tables).
+    The converted code is not in a class statement anymore,
+    so the names in the ast are mangled (in place) before the converting.
+    """
+
+    def mangle(name: str, class_name: str | None) -> str:
+        if (
+            class_name is None
+            or not name.startswith("__")
+            or name.endswith("__")
+            or "." in name
+        ):
+            return name
+        class_name = class_name.lstrip("_")
+        if not class_name:
+            return name
+        return f"_{class_name}{name}"
+
+    stack: list[tuple[AST, str | None]] = [(root, None)]
+    while stack:
+        node, class_name = stack.pop()
+        if isinstance(node, Name):
+            node.id = mangle(node.id, class_name)
+        elif isinstance(node, Attribute):
+            node.attr = mangle(node.attr, class_name)
+        elif isinstance(node, arg):
+            node.arg = mangle(node.arg, class_name)
+        elif isinstance(node, keyword) and node.arg is not None:
+            node.arg = mangle(node.arg, class_name)
+        elif isinstance(node, (Global, Nonlocal)):
+            node.names = [mangle(name, class_name) for name in node.names]
+        elif isinstance(node, alias):
+            if node.asname is not None:
+                node.asname = mangle(node.asname, class_name)
+            elif "." not in node.name and node.name != "*":
+                mangled_name = mangle(node.name, class_name)
+                if mangled_name != node.name:
+                    node.asname = mangled_name
+        elif isinstance(node, (FunctionDef, AsyncFunctionDef)):
+            # the symbol table of the function keeps the original name
+            node.symtable_name = node.name  # type: ignore
+            node.name = mangle(node.name, class_name)
+        elif isinstance(node, ClassDef):
+            # The header of the class is in the outer scope
+            for sub_node in node.decorator_list + node.bases + node.keywords:
+                stack.append((sub_node, class_name))
+            inner_class_name = node.name
+            # the symbol table of the class keeps the original name
+            node.symtable_name = node.name  # type: ignore
+            node.name = mangle(node.name, class_name)
+            for sub_node in node.body:
+                stack.append((sub_node, inner_class_name))
+            continue
+
+        for sub_node in iter_child_nodes(node):
+            stack.append((sub_node, class_name))
+
+
 def convert_slice(_slice: Slice) -> Call:
     """
     Convert slice expt to a call of slice function
